@@ -149,16 +149,10 @@ def run(rep, pdb, tier):
         rep.missing("abs-norms/abs", rule, "not found")
     else:
         ctx = Ctx.for_fn(pdb, fn)
-        es = [e for e in effects(pdb, ctx) if e.kind == "set"]
-        ok = len(es) == 1
-        if ok:
-            e = es[0]
-            r = for_range(ctx, e.loops[0])
-            tb = ctx.binds.get(e.target[1])
-            ti = ctx.term(tb.init) if tb is not None and tb.init is not None else None
-            ok = e.index == r[0] and is_abs_term(e.value) and e.value[2] == ("idx", VEC0, r[0]) and r[1:5] == (num(0), N0, False, False) and \
-                ti is not None and ti[0] == "call" and str(ti[1]).endswith("from_elem") and ti[3] == N0
-        rep.add("abs-norms/abs", rule, ok, fn["body"], "", where=loc(fn["body"]))
+        from .common import fresh_map
+        fm = fresh_map(pdb, ctx)
+        ok = fm is not None and is_abs_term(fm["value"]) and fm["value"][2] == ("idx", VEC0, fm["i"]) and fm["lo"] == num(0) and fm["hi"] in (N0, LEN(VEC0))
+        rep.add("abs-norms/abs", rule, ok, fn["body"], "built by %s" % (fm["kind"] if fm else None), where=loc(fn["body"]))
     fn = pdb.fn("%s::norm_1" % V)
     rule = "norm_1 sums |v_i| over the full range from zero()"
     if fn is None:
@@ -250,7 +244,15 @@ def run(rep, pdb, tier):
             okm = len(ms) == 1
             iflets = [n for n in walk(fn["body"]) if n.get("k") == "If" and isinstance(n.get("cond"), dict) and n["cond"].get("k") == "LetCond" and strip(n["cond"]["init"]) is p_]
             notfound = lambda nt: nt == lin_add(N0, num(-1)) or (nt[0] == "call" and str(nt[1]).endswith("::saturating_sub") and nt[2:] == (N0, num(1)))
-            if not ms and len(iflets) == 1:
+            unw = [n for n in walk(fn["body"]) if n.get("k") == "MethodCall" and n.get("name") in ("unwrap_or", "unwrap_or_else") and strip(n["recv"]) is p_ and len(n.get("args", [])) == 1]
+            if not ms and not iflets and len(unw) == 1:
+                # `position(..).unwrap_or(<not-found value>)` as the value of the function
+                a0 = strip(unw[0]["args"][0])
+                if unw[0]["name"] == "unwrap_or_else" and a0.get("k") == "Closure" and not a0.get("params"):
+                    a0 = a0["body"]
+                tail = fn["body"].get("expr")
+                okm = tail is not None and strip(tail) is unw[0] and notfound(ctx.term(a0))
+            elif not ms and len(iflets) == 1:
                 # `if let Some(i) = position(..) { return i; }  <not-found value>`
                 il = iflets[0]
                 pk = il["cond"]["pat"]
@@ -309,12 +311,11 @@ def run(rep, pdb, tier):
             rep.missing("spacing/%s" % name, rule, "not found")
             continue
         ctx = Ctx.for_fn(pdb, fn)
-        es = [e for e in effects(pdb, ctx) if e.kind == "set"]
-        ok = len(es) == 1
+        from .common import fresh_map
+        fm = fresh_map(pdb, ctx)
+        ok = fm is not None
         if ok:
-            e = es[0]
-            r = for_range(ctx, e.loops[0])
-            i = r[0]
+            i = fm["i"]
             fi = ("tofloat", i)
             sm1 = ("op", "-", ("tofloat", P(2)), num(1))
             A, B = P(0), P(1)
@@ -323,12 +324,10 @@ def run(rep, pdb, tier):
                 want = ("op", "+", A, ("op", "*", h, fi))
             else:
                 want = ("op", "+", A, ("op", "*", ("op", "-", B, A), ("call", None, ("op", "/", fi, sm1), P(3))))
-            v = e.value
+            v = fm["value"]
             if name == "powspace" and v[0] == "op" and v[1] == "+" and v[3][0] == "op" and v[3][3][0] == "call" and str(v[3][3][1]).endswith("powf"):
                 want = ("op", "+", A, ("op", "*", ("op", "-", B, A), ("call", v[3][3][1], ("op", "/", fi, sm1), P(3))))
-            tb = ctx.binds.get(e.target[1])
-            ti = ctx.term(tb.init) if tb is not None and tb.init is not None else None
-            ok = v == want and e.index == i and r[1:5] == (num(0), P(2), False, False) and ti is not None and str(ti[1]).endswith("from_elem") and ti[3] == P(2)
+            ok = v == want and fm["lo"] == num(0) and fm["hi"] == P(2)
         rep.add("spacing/%s" % name, rule, ok, fn["body"], "", where=loc(fn["body"]))
     fns = [f for f in pdb.local_fns() if f["file"].startswith("src/vector/")]
     n_sites = rule_index_kinds(rep, pdb, fns)
